@@ -730,7 +730,65 @@ func (e *ext) c16GlueFacts() {
 	if fd := e.funcDecl(arb, "arbitrationHandler", "Delete"); fd != nil && fd.Body != nil {
 		del = c16TopLevelCall(fd.Body, "DeletePodMigrationJob")
 	}
-	fmt.Fprintf(&e.out, "/-- arbitrationHandler.Create calls AddPodMigrationJob unconditionally (after the nil-object guard) and never DeletePodMigrationJob -/\ndef handlerCreateAdds : Bool := %v\n", create)
+	// the early return of Create: `if job.Status.Phase == K1 || … { return }` before the AddPodMigrationJob call
+	var skipPhases []string
+	skipShape := false
+	if fd := e.funcDecl(arb, "arbitrationHandler", "Create"); fd != nil && fd.Body != nil {
+		phaseVar := map[string]bool{}
+		nGuard, addSeen := 0, false
+		good := true
+		for _, st := range fd.Body.List {
+			if as, ok := st.(*ast.AssignStmt); ok && as.Tok == token.DEFINE && len(as.Lhs) == 1 && len(as.Rhs) == 1 {
+				if id, ok := as.Lhs[0].(*ast.Ident); ok && strings.HasSuffix(c16ExprString(as.Rhs[0]), "Status.Phase") {
+					phaseVar[id.Name] = true
+				}
+			}
+			if es, ok := st.(*ast.ExprStmt); ok && c16CallsMethod(es, "AddPodMigrationJob") {
+				addSeen = true
+			}
+			is, ok := st.(*ast.IfStmt)
+			if !ok {
+				continue
+			}
+			names, lhs, okc := c16EqLeaves(is.Cond)
+			onPhase := okc && len(lhs) > 0
+			for _, l := range lhs {
+				if !strings.HasSuffix(l, "Status.Phase") && !phaseVar[l] {
+					onPhase = false
+				}
+			}
+			if !onPhase {
+				// any other if that mentions the phase is a shape this extractor does not know
+				ast.Inspect(is.Cond, func(n ast.Node) bool {
+					if sel, ok := n.(*ast.SelectorExpr); ok && sel.Sel.Name == "Phase" {
+						good = false
+					}
+					if id, ok := n.(*ast.Ident); ok && phaseVar[id.Name] {
+						good = false
+					}
+					return true
+				})
+				continue
+			}
+			nGuard++
+			if addSeen || is.Else != nil || is.Init != nil || len(is.Body.List) != 1 {
+				good = false
+			} else if ret, ok := is.Body.List[0].(*ast.ReturnStmt); !ok || len(ret.Results) != 0 {
+				good = false
+			}
+			for _, nm := range names {
+				c, known := phaseCode[nm]
+				if !known {
+					good = false
+				}
+				skipPhases = append(skipPhases, fmt.Sprint(c))
+			}
+		}
+		skipShape = good && nGuard <= 1 && addSeen
+	}
+	fmt.Fprintf(&e.out, "/-- arbitrationHandler.Create: at most one `if job.Status.Phase == K1 || … { return }` before the AddPodMigrationJob call, no other test of the phase -/\ndef handlerCreateSkipShape : Bool := %v\n", skipShape)
+	fmt.Fprintf(&e.out, "/-- … for these phases K (codes as above), in source order -/\ndef handlerCreateSkipPhases : List Nat := [%s]\n", strings.Join(skipPhases, ", "))
+	fmt.Fprintf(&e.out, "/-- arbitrationHandler.Create calls AddPodMigrationJob as a top-level statement (after the nil-object guard and the finished-job guard) and never DeletePodMigrationJob -/\ndef handlerCreateAdds : Bool := %v\n", create)
 	fmt.Fprintf(&e.out, "/-- arbitrationHandler.Delete calls DeletePodMigrationJob unconditionally (after the nil-object guard) -/\ndef handlerDeleteDrops : Bool := %v\n", del)
 	// arbitratorImpl.DeletePodMigrationJob: one statement, the call of removeJobPassedArbitration (the waiting collection is not touched)
 	onlyMark := false
